@@ -164,7 +164,7 @@ fn suspend_at_with(p: &Prog, k: usize, pre: u8) -> Option<(Sess, Vec<Ev>, Option
 fn edit_line(p: &Prog, e: &Edit, bp: Option<u64>) -> Option<String> {
     Some(match e {
         Edit::AddNew => "5 REM n".to_string(),
-        Edit::ReplaceFirst => "10 REM r".to_string(),
+        Edit::ReplaceFirst => "10 PRINT \"new\": END".to_string(),
         Edit::DeleteBreakpointLine => format!("{}", bp?),
         Edit::DeleteDataLine => format!("{}", p.data_line?),
         Edit::DeleteDefLine => format!("{}", p.def_line?),
@@ -320,6 +320,8 @@ pub fn run(thorough: bool) -> Report {
                             }
                         }
                         "PRINT X;S$;A(1)" => (got != want_base).then(|| "variable or array contents changed by the edit".to_string()),
+                        // the replaced line 10 is what runs when execution is sent there
+                        "GOTO 10" if matches!(e, Edit::ReplaceFirst) => (got != vec!["Print(\"new\\n\")".to_string(), "Idle".to_string()]).then(|| "GOTO into the replaced line runs something else than its new text".to_string()),
                         _ => None,
                     };
                     if let Some(pr) = problem {
